@@ -135,7 +135,10 @@ func (s *vectorSumAggregation) Aggregate(results []VectorResult) []VectorResult 
 
 	// Sort by score (ascending - smaller is better)
 	sort.Slice(aggregated, func(i, j int) bool {
-		return aggregated[i].Score < aggregated[j].Score
+		if aggregated[i].Score != aggregated[j].Score {
+			return aggregated[i].Score < aggregated[j].Score
+		}
+		return aggregated[i].GetId() < aggregated[j].GetId()
 	})
 
 	return aggregated
@@ -193,7 +196,10 @@ func (m *vectorMaxAggregation) Aggregate(results []VectorResult) []VectorResult 
 
 	// Sort by score (ascending - smaller is better)
 	sort.Slice(aggregated, func(i, j int) bool {
-		return aggregated[i].Score < aggregated[j].Score
+		if aggregated[i].Score != aggregated[j].Score {
+			return aggregated[i].Score < aggregated[j].Score
+		}
+		return aggregated[i].GetId() < aggregated[j].GetId()
 	})
 
 	return aggregated
@@ -248,7 +254,10 @@ func (a *vectorMeanAggregation) Aggregate(results []VectorResult) []VectorResult
 
 	// Sort by score (ascending - smaller is better)
 	sort.Slice(aggregated, func(i, j int) bool {
-		return aggregated[i].Score < aggregated[j].Score
+		if aggregated[i].Score != aggregated[j].Score {
+			return aggregated[i].Score < aggregated[j].Score
+		}
+		return aggregated[i].GetId() < aggregated[j].GetId()
 	})
 
 	return aggregated
@@ -336,7 +345,10 @@ func (s *textSumAggregation) Aggregate(results []TextResult) []TextResult {
 
 	// Sort by score descending (higher score = better for BM25)
 	sort.Slice(aggregated, func(i, j int) bool {
-		return aggregated[i].Score > aggregated[j].Score
+		if aggregated[i].Score != aggregated[j].Score {
+			return aggregated[i].Score > aggregated[j].Score
+		}
+		return aggregated[i].GetId() < aggregated[j].GetId()
 	})
 
 	return aggregated
@@ -386,7 +398,10 @@ func (m *textMaxAggregation) Aggregate(results []TextResult) []TextResult {
 
 	// Sort by score descending (higher score = better for BM25)
 	sort.Slice(aggregated, func(i, j int) bool {
-		return aggregated[i].Score > aggregated[j].Score
+		if aggregated[i].Score != aggregated[j].Score {
+			return aggregated[i].Score > aggregated[j].Score
+		}
+		return aggregated[i].GetId() < aggregated[j].GetId()
 	})
 
 	return aggregated
@@ -440,7 +455,10 @@ func (a *textMeanAggregation) Aggregate(results []TextResult) []TextResult {
 
 	// Sort by score descending (higher score = better for BM25)
 	sort.Slice(aggregated, func(i, j int) bool {
-		return aggregated[i].Score > aggregated[j].Score
+		if aggregated[i].Score != aggregated[j].Score {
+			return aggregated[i].Score > aggregated[j].Score
+		}
+		return aggregated[i].GetId() < aggregated[j].GetId()
 	})
 
 	return aggregated
